@@ -95,7 +95,7 @@ def run(tier, seed):
     for cfg in CONFIGS[tier]:
         explore.bfs(h, cfg, DEPTH[tier], col, seed=seed, result=res, merge_all=(tier == 'thorough'))
         for kind in ('coop', 'lateclose', 'silent', 'refuse'):
-            kk, win = (2, 10) if tier == 'quick' else (DEVK[tier], None)
+            kk, win = (2, 10) if tier == 'quick' else (DEVK[tier], 24)
             st = explore.deviations(h, cfg, kk, 50, col, script_kw={'kind': kind}, window=win)
             dev.append({'cfg': cfg, 'script': kind, 'executions': st['executions'], 'events': st['events'],
                         'k': st['k'], 'outcomes': sorted(map(repr, st['outcomes']))})
